@@ -105,6 +105,16 @@ def _check_persist(H, p, model, hist, res, err):
     if err is not None:
         return
     where = " ; ".join(L.describe_op(o) for o in hist)
+    # saving must not touch the live tables, and a project that was saved after every operation must
+    # end in the same state as one that was never saved
+    live = L.tables(p)
+    p.read()
+    H.check("saving_leaves_live_tables_untouched", L.tables(p) == live, witness={"history": where, "before": live, "after": L.tables(p)})
+    p2 = L.new_project(len(p.modules) - 1)
+    for op in hist:
+        L.apply_op(p2, op)
+        p2.read()
+    H.check("intermediate_saves_do_not_change_the_outcome", L.tables(p2) == live, witness={"history": where, "without_saves": live, "with_saves": L.tables(p2)})
     try:
         q = _reload(p)
     except Exception as e:  # noqa
